@@ -322,6 +322,10 @@ pub struct ObjNative {
     pub(crate) name: Gc<ObjString>,
     pub function: NativeFn,
     pub(crate) manages_stack: bool,
+    /// Whether the function, called as a method, works on an instance of a class declared in the
+    /// language. The methods of the built-in classes other than Object read their receiver's
+    /// built-in representation, which such an instance - even of a class derived from theirs - lacks.
+    pub(crate) accepts_instances: bool,
 }
 
 impl fmt::Debug for ObjNative {
@@ -331,6 +335,7 @@ impl fmt::Debug for ObjNative {
             .field("name", &self.name)
             .field("function", &function)
             .field("manages_stack", &self.manages_stack)
+            .field("accepts_instances", &self.accepts_instances)
             .finish()
     }
 }
@@ -341,7 +346,13 @@ impl ObjNative {
             name,
             function,
             manages_stack,
+            accepts_instances: false,
         }
+    }
+
+    pub(crate) fn accepting_instances(mut self) -> Self {
+        self.accepts_instances = true;
+        self
     }
 }
 
